@@ -653,9 +653,13 @@ macro_rules! bq_hist {
         let g = w - q;
         let one: $t = 1 << q;
         // coefficient styles: arbitrary, moderate, integrator (a1=-ONE), double integrator (a1=-2ONE,a2=ONE)
-        let style = rng.below(5);
+        let style = rng.below(6);
+        // style 5: everything at full scale, so that PARTIAL sums of the five products overflow the accumulator in a
+        // checked build although single products never do (the accumulation order is then visible as PANIC lines)
+        let full = style == 5;
+        let fs = |rng: &mut Rng| -> $t { [<$t>::MIN, <$t>::MAX, <$t>::MIN + 1, <$t>::MAX - 1, <$t>::MIN / 2, <$t>::MAX / 2 + 1][rng.below(6) as usize] };
         let co = |rng: &mut Rng| -> $t {
-            if rng.chance(1, 2) { rng.int(w) as $t } else { rng.int(q + 1) as $t }
+            if full { fs(rng) } else if rng.chance(1, 2) { rng.int(w) as $t } else { rng.int(q + 1) as $t }
         };
         let mut ba: [$t; 5] = [co(rng), co(rng), co(rng), co(rng), co(rng)];
         match style {
@@ -682,7 +686,7 @@ macro_rules! bq_hist {
         let cfg = format!("[{},{},{},{},{},{},{},{}]", ba[0], ba[1], ba[2], ba[3], ba[4], u, mn, mx);
         let small = rng.chance(1, 2);
         let sm = |rng: &mut Rng| -> $t {
-            if small { rng.int(w / 2) as $t } else { rng.int(w) as $t }
+            if full { fs(rng) } else if small { rng.int(w / 2) as $t } else { rng.int(w) as $t }
         };
         let form = rng.below(3);
         let xconst = sm(rng);
